@@ -1472,7 +1472,8 @@ func (w *world) execNest(r *hx.Run, f []string) string {
 		return "bad-op"
 	}
 	aLane, aReq := laneSplit(segs[0])
-	if !isSeqOp(aReq) || len(segs) < 2 {
+	if !isSeqOp(aReq) || len(segs) < 2 || aReq[0] == "cnext" || aReq[0] == "crelease" {
+		// (cnext / crelease arm a shutdown after the NEXT write the database takes, whoever makes it: not as the parked request)
 		return "bad-op"
 	}
 	for _, sg := range segs[1:] {
